@@ -91,16 +91,16 @@ var specList = []specFn{
 	{Name: "convertsToString", Counts: []int{0}, Recv: "12", Impl: true, Finger: map[int][]string{0: {"'abc'.convertsToString()", "{}.convertsToString().empty()", "12.convertsToString()", "Patient.name.first().convertsToString() = false", "Patient.convertsToString() = false"}}},
 	{Name: "toTime", Counts: []int{0}, Recv: "'10:30'", Impl: true, Finger: map[int][]string{0: {"'10:30'.toTime() is System.Time", "'10:30'.toTime() = @T10:30"}}},
 	{Name: "convertsToTime", Counts: []int{0}, Recv: "'10:30'", Impl: true, Finger: map[int][]string{0: {"'10:30'.convertsToTime()", "'2020'.convertsToTime() = false"}}},
-	{Name: "indexOf", Counts: []int{1}, Recv: "'abcdefg'", Args: []string{"'cd'"}, Impl: true, SingleArg: []int{0}, Finger: map[int][]string{1: {"'abcdefg'.indexOf('cd') = 2", "'abcdefg'.indexOf('x') = -1"}}},
-	{Name: "substring", Counts: []int{1, 2}, Recv: "'abcdefg'", Args: []string{"1", "2"}, Impl: true, SingleArg: []int{0, 1}, Finger: map[int][]string{1: {"'abcdefg'.substring(3) = 'defg'"}, 2: {"'abcdefg'.substring(1, 2) = 'bc'"}}},
-	{Name: "startsWith", Counts: []int{1}, Recv: "'abc'", Args: []string{"'ab'"}, Impl: true, SingleArg: []int{0}, Finger: map[int][]string{1: {"'abc'.startsWith('ab')", "'abc'.startsWith('bc') = false"}}},
-	{Name: "endsWith", Counts: []int{1}, Recv: "'abc'", Args: []string{"'bc'"}, Impl: true, SingleArg: []int{0}, Finger: map[int][]string{1: {"'abc'.endsWith('bc')", "'abc'.endsWith('ab') = false"}}},
-	{Name: "contains", Counts: []int{1}, Recv: "'abc'", Args: []string{"'b'"}, Impl: true, SingleArg: []int{0}, Finger: map[int][]string{1: {"'abc'.contains('a.c') = false", "'abc'.contains('b')", "'abc'.contains('x') = false"}}},
+	{Name: "indexOf", Counts: []int{1}, Recv: "'abcdefg'", Args: []string{"'cd'"}, Impl: true, SingleArg: []int{0}, Finger: map[int][]string{1: {"'abcdefg'.indexOf('cd') = 2", "'abcdefg'.indexOf($this.substring(2, 2)) = 2", "'abcdefg'.indexOf('x') = -1"}}},
+	{Name: "substring", Counts: []int{1, 2}, Recv: "'abcdefg'", Args: []string{"1", "2"}, Impl: true, SingleArg: []int{0, 1}, Finger: map[int][]string{1: {"'abcdefg'.substring(3) = 'defg'", "'abcdefg'.substring($this.length() - 2) = 'fg'"}, 2: {"'abcdefg'.substring(1, 2) = 'bc'", "'abcdefg'.substring(1, $this.length() - 5) = 'bc'"}}},
+	{Name: "startsWith", Counts: []int{1}, Recv: "'abc'", Args: []string{"'ab'"}, Impl: true, SingleArg: []int{0}, Finger: map[int][]string{1: {"'abc'.startsWith('ab')", "'abcabc'.startsWith($this.substring(0, 3))", "'abc'.startsWith('bc') = false"}}},
+	{Name: "endsWith", Counts: []int{1}, Recv: "'abc'", Args: []string{"'bc'"}, Impl: true, SingleArg: []int{0}, Finger: map[int][]string{1: {"'abc'.endsWith('bc')", "'abcabc'.endsWith($this.substring(3))", "'abc'.endsWith('ab') = false"}}},
+	{Name: "contains", Counts: []int{1}, Recv: "'abc'", Args: []string{"'b'"}, Impl: true, SingleArg: []int{0}, Finger: map[int][]string{1: {"'abc'.contains('a.c') = false", "'abc'.contains('b')", "'abc'.contains($this.substring(1, 1))", "'abc'.contains('x') = false"}}},
 	{Name: "upper", Counts: []int{0}, Recv: "'abc'", Impl: true, Finger: map[int][]string{0: {"'abc'.upper() = 'ABC'"}}},
 	{Name: "lower", Counts: []int{0}, Recv: "'ABC'", Impl: true, Finger: map[int][]string{0: {"'ABC'.lower() = 'abc'"}}},
-	{Name: "replace", Counts: []int{2}, Recv: "'abcdefg'", Args: []string{"'cde'", "'123'"}, Impl: true, SingleArg: []int{0, 1}, Finger: map[int][]string{2: {"'a.c'.replace('.', 'X') = 'aXc'", "'abcdefg'.replace('cde', '123') = 'ab123fg'"}}},
-	{Name: "matches", Counts: []int{1}, Recv: "'abc'", Args: []string{"'^a.c$'"}, Impl: true, SingleArg: []int{0}, Finger: map[int][]string{1: {"'abc'.matches('b') ", "'a.c'.matches('a\\\\.c')", "'abc'.matches('^a.c$')", "'abd'.matches('^a.c$') = false"}}},
-	{Name: "replaceMatches", Counts: []int{2}, Recv: "'abc'", Args: []string{"'b'", "'X'"}, Impl: true, SingleArg: []int{0, 1}, Finger: map[int][]string{2: {"'abc'.replaceMatches('[ab]', 'X') = 'XXc'", "'abc'.replaceMatches('b', 'X') = 'aXc'"}}},
+	{Name: "replace", Counts: []int{2}, Recv: "'abcdefg'", Args: []string{"'cde'", "'123'"}, Impl: true, SingleArg: []int{0, 1}, Finger: map[int][]string{2: {"'a.c'.replace('.', 'X') = 'aXc'", "'abcabc'.replace($this.substring(0, 1), $this.substring(1, 1)) = 'bbcbbc'", "'abcdefg'.replace('cde', '123') = 'ab123fg'"}}},
+	{Name: "matches", Counts: []int{1}, Recv: "'abc'", Args: []string{"'^a.c$'"}, Impl: true, SingleArg: []int{0}, Finger: map[int][]string{1: {"'abc'.matches('b') ", "'abc'.matches($this)", "'a.c'.matches('a\\\\.c')", "'abc'.matches('^a.c$')", "'abd'.matches('^a.c$') = false"}}},
+	{Name: "replaceMatches", Counts: []int{2}, Recv: "'abc'", Args: []string{"'b'", "'X'"}, Impl: true, SingleArg: []int{0, 1}, Finger: map[int][]string{2: {"'abc'.replaceMatches('[ab]', 'X') = 'XXc'", "'abc'.replaceMatches($this.substring(1, 1), 'X') = 'aXc'", "'abc'.replaceMatches('b', 'X') = 'aXc'"}}},
 	{Name: "length", Counts: []int{0}, Recv: "'abc'", Impl: true, Finger: map[int][]string{0: {"'abc'.length() = 3"}}},
 	{Name: "toChars", Counts: []int{0}, Recv: "'abc'", Impl: true, Finger: map[int][]string{0: {"'abc'.toChars().count() = 3", "'abc'.toChars().last() = 'c'"}}},
 	{Name: "abs", Counts: []int{0}, Recv: "5", Impl: true, Finger: map[int][]string{0: {"(-5).abs() = 5", "5.abs() = 5"}}},
